@@ -319,8 +319,13 @@ def mineLoop (n : Node) (ts : Nat) (evs : List Ev) : Nat → Node × Class
     | (n', .ok) => mineLoop n' ts evs k
     | (n', c) => (n', c)
 
+/-- one of the hashes `mine` would generate is already in use (a block submitted with that explicit hash) -/
+def mineClash (n : Node) (count : Nat) : Bool :=
+  (List.range count).any (fun k => n.blockExists (generatedHash (n.nextHeight + k)) (n.nextHeight + k))
+
 def mine (n : Node) (count ts : Nat) (evs : List Ev) : Node × Class :=
   if n.lbi.waiting ≠ 0 then (n, .err "waiting")
+  else if n.mineClash count then (n, .err "exists")
   else mineLoop n ts evs count
 
 /-- `commit_changes`: block tables, then every versioned table at the next height, then `clear_caches`. -/
